@@ -145,12 +145,22 @@ func Build(e *Env, spec TopoSpec, srv *goat.Server, copts func(i int) []goat.Dia
 		e.OnTeardown(tcancel)
 		hopts := []goat.GoatOverHttpOption{goat.WithConnectionCleanupInterval(time.Hour), goat.WithConnectionTimeout(2 * time.Hour)}
 		k := 0
+		seenPeer := map[string]int{}
 		B := goat.NewGoatOverHttp(func(id string, rw goat.RpcReadWriter) {
 			// runs on a goat goroutine
 			histMu.Lock()
 			name := fmt.Sprintf("hserve%d", k)
 			k++
+			seenPeer[id]++
+			dup := seenPeer[id] > 1
 			histMu.Unlock()
+			if dup {
+				// idle timeouts are hours away: a second "new connection" for a peer that
+				// has one splits that client's envelopes over two server connections
+				for _, prop := range []string{"C01", "C05"} {
+					e.Violate(prop, "duplicate-connection", "http.retrieve", "the server's HTTP transport announced a new connection for %s twice", id)
+				}
+			}
 			ctx, cancel := context.WithCancel(context.Background())
 			sr := &ServeRec{Name: name, Cancel: cancel, Ctx: ctx}
 			e.OnTeardown(cancel)
